@@ -63,7 +63,8 @@ Section QInst.
         assert (Hw : 0 < w) by (destruct (Qlt_le_dec 0 w) as [L|L]; [exact L|exfalso; apply E0; lra]).
         split; [exact Hw|].
         destruct (update_body_spec Item ditem cu s x w false c inp HR HP Hw) as (s' & c' & E & H').
-        exists s', c'. rewrite E. split; [reflexivity|exact H'].
+        exists s', c'. rewrite E. split; [reflexivity|]. destruct H' as (A1 & A2 & A3 & A4 & A5 & A6 & A7 & _).
+        repeat (split; [assumption|]). exact A7.
   Qed.
 
   Lemma accepted_snoc xs x w : accepted (xs ++ [(x, w)]) = accepted xs ++ (if Qltb 0 w then [(x, w)] else []).
